@@ -23,7 +23,7 @@ RULE = (
     "(or none), 20 trials, same binomial decision: every listed combination must actually be checked."
 )
 
-FAMILIES = ["elementwise", "matmul", "broadcast", "complex", "container", "scalar", "dict_complex"]
+FAMILIES = ["elementwise", "matmul", "broadcast", "complex", "container", "scalar", "dict_complex", "skew"]
 DEFECTS = ["none", "factor", "sign", "transpose", "missing_reduction", "missing_conj", "drop_imag", "one_entry", "second_order_only"]
 
 
@@ -101,6 +101,32 @@ def build(family, shape, defect, eps, where, vseed, rereg=False):
         cosj = lambda x: cos_bad(x) if dj == "second_order_only" else anp.cos(x)
         defvjp(f, lambda ans, x: lambda g: apply_defect(dv, g * cosv(x) * cc))
         defjvp(f, lambda g, ans, x: apply_defect(dj, g * cosj(x) * cc))
+        return f, x0
+    if family == "skew":
+        # a linear map with an antisymmetric matrix on vectors (input and output live in the SAME space): a transposed Jacobian or a flipped
+        # sign is then a purely antisymmetric error - invisible to a checker that pairs J v with v itself
+        n = max(2, shape[0] if shape else 3)
+        (M0, x0), _ = values.generic(vseed, [(n, n), (n,)], 0.4, 1.6)
+        S = M0 - M0.T
+
+        @primitive
+        def f(x):
+            return onp.dot(S, x)
+
+        def vjp(ans, x):
+            def r(g):
+                if dv == "transpose":
+                    return anp.dot(S, g)
+                return apply_defect(dv, anp.dot(S.T, g))
+            return r
+
+        def jvp(g, ans, x):
+            if dj == "transpose":
+                return anp.dot(S.T, g)
+            return apply_defect(dj, anp.dot(S, g))
+
+        defvjp(f, vjp)
+        defjvp(f, jvp)
         return f, x0
     if family == "matmul":
         n = max(2, shape[0] if shape else 2)
@@ -234,7 +260,9 @@ def build(family, shape, defect, eps, where, vseed, rereg=False):
 
 def applicable(family, defect, where, order):
     if defect == "transpose":
-        return family == "matmul"
+        return family in ("matmul", "skew")
+    if family == "skew":
+        return defect in ("factor", "sign", "one_entry")
     if defect == "missing_reduction":
         return family == "broadcast"
     if defect in ("missing_conj", "drop_imag"):
@@ -258,7 +286,7 @@ def cell_body(trials, c):
     defect = cands[c.int(0, len(cands) - 1)] if c.chance(4, 5) else "none"
     eps = c.choice([3e-3, 1e-2, 1e-1, -1e-2])
     modes_req = c.choice(["default", "rev", "fwd"])
-    shape = c.choice([(), (3,), (3, 2), (4, 4)]) if family not in ("matmul",) else c.choice([(2,), (3,), (4,)])
+    shape = c.choice([(), (3,), (3, 2), (4, 4)]) if family not in ("matmul", "skew") else c.choice([(2,), (3,), (4,)])
     if family == "broadcast":
         shape = c.choice([(2,), (4,)])
     if not applicable(family, defect, where, order):
@@ -272,12 +300,17 @@ def cell_body(trials, c):
     rereg = c.chance(1, 4)
     sample = {"family": family, "defect": defect, "eps": eps if defect == "factor" else None, "where": where if defect != "none" else None,
               "order": order, "modes": modes_req, "shape": list(shape), "trials": trials, "vseed": vseed, "seed_base": base, "registered_twice": rereg}
+    # the point (scalar family only) may be a Python int: the checker may refuse it loudly, but it must not ACCEPT a wrong rule there
+    int_point = family == "scalar" and c.chance(1, 3)
+    sample["int_point"] = int_point
     try:
         f, x0 = build(family, shape, defect, eps, where, vseed, rereg)
     except Exception as e:
         if not from_autograd(e):
             raise
         return fail("unexpected_exception", describe_exc(e), "C18|build", sample=sample)
+    if int_point:
+        x0 = 1
     kwargs = {"order": order}
     if modes_req != "default":
         kwargs["modes"] = [modes_req]
@@ -311,8 +344,13 @@ def cell_body(trials, c):
     finally:
         onp.random.set_state(state)
     c.features.update({k: v for k, v in sample.items() if k not in ("vseed", "seed_base")})
-    cell = json.dumps([family, defect, eps if defect == "factor" else None, where if defect != "none" else None, order, modes_req, list(shape), rereg])
+    cell = json.dumps([family, defect, eps if defect == "factor" else None, where if defect != "none" else None, order, modes_req, list(shape), rereg, int_point])
     labels = ["family=" + family, "defect=" + defect, f"order={order}", "modes=" + modes_req] + (["registered_twice"] if rereg else [])
+    if int_point and rejected == trials and first_err is None:
+        # refused every time with an error that is not a verdict (no derivative with respect to an int): loud, allowed
+        from ..case import Outcome as _Outcome
+
+        return _Outcome("raised", kind="int point refused", detail=other_exc, labels=labels + ["int_point"], sample=sample)
     if defect == "none":
         if rejected:
             return fail("false_rejection", f"check_grads rejected a correct primitive in {rejected}/{trials} trials: {first_err or other_exc}",
